@@ -146,7 +146,7 @@ Explorer.concrete = False
 # ------------------------------------------------------------------ units
 class Unit:
     def __init__(self, name, sym, real=None, bounds=None, regions=(), split=False, max_paths=200000, max_depth=4000,
-                 expect=None, diff=True, query_timeout_ms=20000, budget_s=None):
+                 expect=None, diff=True, query_timeout_ms=20000, budget_s=None, diff_sample=None):
         self.name = name
         self.sym = sym  # fn(ex) over module copies
         self.real = real  # fn(ConcreteEx) over the real library (replay + differential); may be None
@@ -157,6 +157,7 @@ class Unit:
         self.max_depth = max_depth
         self.diff = diff and real is not None
         self.query_timeout_ms = query_timeout_ms
+        self.diff_sample = diff_sample  # how many proved paths are re-run on the real library (None = default 40)
         self.budget_s = budget_s  # wall budget of one exploration task (a subtree); exceeding it is inconclusive
 
 
@@ -420,19 +421,38 @@ def check_property(prop, units, tier, seed, *, explanation, assumptions, stubs=(
                 what = "%s / %s%s" % (u.name, lab, (" (%s)" % exc[1]) if exc and exc != "PathAbort" else "")
                 path = write_replay(prop, u.name, lab, inp, what)
                 out.violations.append({"unit": u.name, "label": lab, "inputs": enc_inputs(inp), "replay": path, "what": what})
-        # model-based differential on a sample of ok paths
+        # model-based differential: the concrete inputs of a sample of fully proved paths are run on the real library.
+        # An obligation that fails there (or an escaping exception) IS a violation replayed on the real library - this is
+        # how defects inside code that the symbolic side replaces by a stub/ideal primitive are still reported.
         if u.diff and okpaths:
             rng.shuffle(okpaths)
-            for r in okpaths[:diff_sample]:
+            for r in okpaths[:(u.diff_sample or diff_sample)]:
                 failed, exc, obs, cx = run_real(u, r["inputs"])
                 diff["compared"] += 1
                 if exc is None and not failed and obs == r["value"]:
                     diff["agree"] += 1
                 elif exc == "PathAbort":
                     diff["compared"] -= 1
+                elif failed or exc:
+                    labels = _b.list(failed) + (["unexpected-exception:%s" % exc[0]] if exc else [])
+                    for lab in labels:
+                        k = match_known(known, prop, u.name, lab, r["inputs"])
+                        if k is not None:
+                            if k["id"] not in seen_findings:
+                                seen_findings.add(k["id"])
+                                out.known.append(k)
+                            continue
+                        fk = (u.name, lab)
+                        if fk in seen_findings:
+                            continue
+                        seen_findings.add(fk)
+                        what = "%s / %s (on the real library; proved on the symbolic side, i.e. inside stubbed or idealised code)%s" % (
+                            u.name, lab, (" (%s)" % exc[1]) if exc else "")
+                        path = write_replay(prop, u.name, lab, r["inputs"], what)
+                        out.violations.append({"unit": u.name, "label": lab, "inputs": enc_inputs(r["inputs"]), "replay": path, "what": what})
                 else:
-                    out.harness_errors.append("%s: differential mismatch on inputs %r: symbolic %r vs real %r (exc %r failed %r)"
-                                              % (u.name, enc_inputs(r["inputs"]), r["value"], obs, exc, failed))
+                    out.harness_errors.append("%s: differential mismatch on inputs %r: symbolic %r vs real %r"
+                                              % (u.name, enc_inputs(r["inputs"]), r["value"], obs))
             for r in okpaths[:2]:
                 if _b.len(samples) < 12:
                     samples.append({"unit": u.name, "inputs": enc_inputs(r["inputs"]), "observation": r["value"]})
